@@ -47,7 +47,7 @@ class Scheduler:
         self.spec_ids = sorted(scenario["specs"])
         self.shared_arg_ids = sorted(
             a for a, ad in scenario["args"].items() if ad["kind"] in ("response", "transforms")
-        )
+        )  # RELOAD candidates (numpy scalars and malformed members are not persisted)
         self.handles = {}  # key -> HandleView
         self.by_client = {c: [] for c in self.clients}
         self.next_hid = {c: 0 for c in self.clients}
@@ -88,6 +88,21 @@ class Scheduler:
                 hv.learn(path, ev.get("k"))
                 hv.read_keys.add(pkey(path))
                 self.history.append((key, path))
+        elif kind == "EDIT":
+            for key in ev.get("dropped") or []:
+                hv = self.handles.pop(key, None)
+                if hv is not None and key in self.by_client.get(hv.cid, []):
+                    self.by_client[hv.cid].remove(key)
+                self.history = [h for h in self.history if h[0] != key]
+        elif kind == "HOLD":
+            _k, cid, hid, src, path = op
+            key = "%s.%s" % (cid, hid)
+            cls = (ev.get("k") or {}).get("cls")
+            if cls:
+                hv = HandleView(cid, hid, ev.get("sid") or self.handles["%s.%s" % (cid, src)].sid, cls)
+                hv.learn([], ev.get("k"))
+                self.handles[key] = hv
+                self.by_client[cid].append(key)
         elif kind == "DROP":
             _k, cid, hid = op
             key = "%s.%s" % (cid, hid)
@@ -316,8 +331,47 @@ class Scheduler:
             return ["DROP", hv.cid, hv.hid]
         return self._next_deck_op()
 
+    def _edit(self):
+        """F8: an edit the caller makes to one of its own (dict-form, non-derived) arguments."""
+        r = self.rnd
+        cands = []
+        for a in self.shared_arg_ids:
+            ad = self.sc["args"][a]
+            if any(k in ad for k in ("view_of", "compose", "trim_of")):
+                continue
+            if ad["kind"] == "transforms" or (ad["kind"] == "response" and ad.get("form", "asis") in ("asis", "toggle")):
+                cands.append(a)
+        if not cands:
+            return None
+        a = r.choice(cands)
+        ad = self.sc["args"][a]
+        if ad["kind"] == "transforms":
+            axis = r.choice(["rows_dimension", "columns_dimension"])
+            kind = r.choice(["hide", "hide", "prune", "order"])
+            if kind == "hide":
+                key = r.choice([x for x in self.ref_pool if isinstance(x, (str, int)) and not isinstance(x, bool)] or ["1"])
+                return ["EDIT", a, ["hide", axis, str(key)]]
+            if kind == "prune":
+                return ["EDIT", a, ["prune", axis, r.choice([True, False])]]
+            ids = [x for x in r.sample(self.ref_pool, min(3, len(self.ref_pool))) if x is not None]
+            return ["EDIT", a, ["order", axis, ids]]
+        if "corpus" not in ad:
+            return ["EDIT", a, ["retitle", 0, "Friendlier title"]]
+        meta = model.corpus_index()[ad["corpus"]]
+        dims = [d for d in meta["dims"] if d["raw_idx"] >= 0]
+        if not dims:
+            return None
+        d = r.choice(dims)
+        valid = [k for k, e in enumerate(d["elements"]) if not e["missing"]]
+        if d["type"] in ("CAT", "CAT_DATE") and len(valid) >= 3 and r.random() < 0.5:
+            return ["EDIT", a, ["missing", d["raw_idx"], r.choice(valid)]]
+        return ["EDIT", a, ["retitle", d["raw_idx"], r.choice(["Friendlier title", "", "Retitled"])]]
+
     def _ambient(self):
         r = self.rnd
+        if "F7" in self.kn["faults"] and r.random() < 0.4:
+            # log-uniform: most reads are a few hundred library lines, some many thousands
+            return {"interrupt": int(2 ** r.uniform(1, 12))}
         if r.random() < 0.5:
             return {"errstate": "raise"}
         return {"deep": r.choice([20, 28, 34, 36, 38, 40, 42, 46, 52, 60, 75, 95, 130])}
@@ -325,7 +379,7 @@ class Scheduler:
     def next_op(self):
         op = self._next_op()
         # F6: now and then the host is in an unusual state while a read is made
-        if op[0] == "READ" and "F6" in self.kn["faults"] and self.rnd.random() < self.kn.get("ambient_rate", 0.04):
+        if op[0] == "READ" and ("F6" in self.kn["faults"] or "F7" in self.kn["faults"]) and self.rnd.random() < self.kn.get("ambient_rate", 0.04):
             return ["READX", op[1], op[2], op[3], self._ambient()]
         return op
 
@@ -369,6 +423,8 @@ class Scheduler:
                 "DROP": 4 if "F2" in faults else 0.5,
                 "RELOAD": 3 if "F3" in faults else 0,
                 "CALLF1": 4 if "F1" in faults else 0,
+                "HOLD": 2.5 if "F2" in faults else 0.5,
+                "EDIT": 1.5 if "F8" in faults else 0,
             }
             names = sorted(weights)
             k = r.choices(names, [weights[n] for n in names])[0]
@@ -382,6 +438,24 @@ class Scheduler:
                 return self._read(cid)
             key, path = r.choice(mine[-20:])
             return ["READ", cid, self.handles[key].hid, path]
+        if k == "EDIT":
+            op = self._edit()
+            if op is not None:
+                return op
+            return self._read(cid)
+        if k == "HOLD":
+            # keep a handed-out object, and usually let go of where it came from
+            key = r.choice(self.by_client[cid])
+            hv = self.handles[key]
+            cands = sorted(nk for nk, (p, cls) in hv.nodes.items() if p and cls not in ("cube.Cube", "cube.CubeSet"))
+            if not cands:
+                return self._read(cid)
+            path, _cls = hv.nodes[r.choice(cands)]
+            hid = "h%d" % self.next_hid[cid]
+            self.next_hid[cid] += 1
+            if r.random() < 0.7:
+                self.__dict__.setdefault("pending", []).append(["DROP", cid, hv.hid])
+            return ["HOLD", cid, hid, hv.hid, path]
         if k == "CONSTRUCT":
             return self._construct(cid)
         if k == "PROBE":
